@@ -1,8 +1,9 @@
 (* Engine.v -- executable model of the REST engine (cmd/cremengine/engine/api + internal/pkg/server/rest),
    shared by C14 and C15.  No proofs in this file.
 
-   Transcribed handler by handler from the Go sources AS THEY ARE at /repo b0400cb (the fix series
-   proposed_fixes/SERIES-C14C15.txt and the CSV cell-text fix are committed there), including the ORDER of side effects.  Every Go expression that can fail at run time (x.(T) without ", ok",
+   Transcribed handler by handler from the Go sources AS THEY ARE at /repo ee825ef with proposed_fixes/C15-11 applied (the
+   fix series proposed_fixes/SERIES-C14C15.txt, the CSV cell-text fix and the all-or-nothing Decode are committed there),
+   including the ORDER of side effects.  Every Go expression that can fail at run time (x.(T) without ", ok",
    s[i], a nil dereference, an explicit panic) is an explicit [Panic] branch carrying the Go location in a comment.
 
    Abstraction boundary (what the model takes as INPUT rather than computes): a request carries the PARSE-LEVEL view the
@@ -175,23 +176,27 @@ Fixpoint join_colon (l : list string) : string :=
   match l with [] => "" | [x] => x | x :: l' => String.append x (String.append ":" (join_colon l')) end.
 Definition encode (bs : list bool) : string := join_colon (map to_hex (bits_to_words bs)).
 
-(* parseEntriesIntoArrayValues stores word by word and stops at the first parse error: the words before it stay
-   replaced (BooleanArchive.go:156-163). *)
-Fixpoint parse_entries (entries : list string) (ws : list N) : bool * list N :=
-  match entries, ws with
-  | e :: es, w :: ws' =>
+(* parseEntriesIntoArrayValues parses EVERY entry before storing any of them (/repo ee825ef): an encoding rejected
+   part-way through leaves the archive exactly as it was. *)
+Fixpoint parse_all (entries : list string) : option (list N) :=
+  match entries with
+  | [] => Some []
+  | e :: es =>
       match parse_hex64 e with
-      | None => (false, w :: ws')
-      | Some v => let '(ok, rest) := parse_entries es ws' in (ok, v :: rest)
+      | None => None
+      | Some v => match parse_all es with Some r => Some (v :: r) | None => None end
       end
-  | _, _ => (true, ws)
   end.
-(* Decode: (error?, resulting bits).  On success the bits at positions >= n are cleared (zeroOutUnusedArrayEntries),
-   which [words_to_bits n] does by construction. *)
+(* Decode: (accepted?, resulting bits).  Rejected: wrong number of ':'-separated entries for the archive, or an entry
+   that is not a hexadecimal uint64 -- the archive keeps its content.  Accepted: all words replaced, the bits at
+   positions >= n cleared (zeroOutUnusedArrayEntries), which [words_to_bits n] does by construction. *)
 Definition decode (n : nat) (cur : list bool) (enc : string) : bool * list bool :=
   let entries := split_colon enc in
   if negb (Nat.eqb (List.length entries) (archive_len n)) then (false, cur)
-  else let '(ok, ws) := parse_entries entries (bits_to_words cur) in (ok, words_to_bits n ws).
+  else match parse_all entries with
+       | None => (false, cur)
+       | Some ws => (true, words_to_bits n ws)
+       end.
 Definition decodes (n : nat) (enc : string) : bool := fst (decode n (repeat false n) enc).
 
 (* ------------------------------------------------------------------------------------------------ *)
@@ -673,9 +678,22 @@ Fixpoint verify_rows (asis : list (string * Q)) (hdr : list string) (rows : list
           else verify_rows asis hdr rows'
       end
   end.
-(* verifySolutionSummaryMatchesScenario *)
+(* every Actions cell (column colSize-2) must decode for the scenario's action count, on a scratch compressed state;
+   the loop returns at the first row that does not *)
+Fixpoint actions_decode (n col : nat) (rows : list (list cell)) : res bool :=
+  match rows with
+  | [] => Ok true
+  | r :: rows' =>
+      match nth_error r col with
+      | None => Panic                                                       (* CellString(encodingIndex, rowIndex) *)
+      | Some c => if decodes n (cell_string_of c) then actions_decode n col rows' else Ok false
+      end
+  end.
+(* verifySolutionSummaryMatchesScenario: column count, decodable Actions cells, As-Is values *)
 Definition verify_summary (d : desc) (t : table) : res bool :=
-  if Nat.ltb (col_size t) (List.length (d_asis d) + 3) then Ok false else verify_rows (d_asis d) (t_header t) (t_rows t).
+  if Nat.ltb (col_size t) (List.length (d_asis d) + 3) then Ok false else
+  do dec <- actions_decode (List.length (d_actions d)) (col_size t - 2) (t_rows t);
+  if negb dec then Ok false else verify_rows (d_asis d) (t_header t) (t_rows t).
 
 Definition post_solutions (s : state) (r : request) : outcome :=
   match st_text s with
